@@ -338,7 +338,9 @@ Lemma conflictb_none_r : forall a, conflictb a ANone = false.
 Proof. destruct a; reflexivity. Qed.
 
 (* no two different threads have conflicting next accesses (enabled or not), on any location other than the
-   shared cholmod_common *)
+   shared cholmod_common of the code as found — and on that one and on every per-worker common LWCommon j too in the
+   shape after the D15 fix (sc = false): the coordinator touches commons[j] only at CCreate 0 (phase PhCreate 0: no worker
+   created yet) and at CCleanup (phase PhTerm N: every worker exited), worker j touches commons[j] only *)
 Lemma no_conflict_inv : forall sc s t1 t2 l, Inv s -> t1 <> t2 -> (l <> LCommon \/ sc = false) ->
   conflictb (acc N na sc s t1 l) (acc N na sc s t2 l) = false.
 Proof.
@@ -358,6 +360,7 @@ Proof.
   simpl. destruct (j1 <? N); [|reflexivity]. destruct (j2 <? N); [|apply conflictb_none_r].
   destruct (wp s j1); destruct l; simpl; try reflexivity; destruct (wp s j2); simpl; rewrite ?conflictb_none_r; try reflexivity;
     eqb_cases; simpl; try reflexivity; try congruence;
+    try (destruct sc; reflexivity);
     destruct Hl as [Hl|Hl]; try congruence; subst sc; reflexivity.
 Qed.
 
@@ -366,6 +369,26 @@ Proof.
   intros sc s t1 t2 l Hi Hl. unfold raceb.
   destruct (Nat.eqb_spec t1 t2) as [He|He]; [reflexivity|].
   rewrite (no_conflict_inv sc s t1 t2 l Hi He Hl). rewrite andb_false_r. reflexivity.
+Qed.
+
+(* D15 fix, ownership of the per-worker commons: worker t = S j touches commons[k] only for k = j, and while the coordinator
+   touches any commons[k] (cholmod_l_start before the first pthread_create; free_dense + cholmod_l_finish after the last
+   pthread_join) or reads the caller's common, no worker exists: every worker is not yet created or has exited *)
+Lemma common_owner_worker : forall sc s j k, acc N na sc s (S j) (LWCommon k) <> ANone -> k = j /\ j < N /\ sc = false.
+Proof.
+  intros sc s j k H. simpl in H. destruct (Nat.ltb_spec j N) as [Hj|Hj]; [|congruence].
+  destruct (wp s j); try congruence; destruct sc; simpl in H; try congruence;
+    destruct (Nat.eqb_spec k j); try congruence; auto.
+Qed.
+
+Lemma common_owner_coordinator : forall sc s l, Inv s -> (l = LCommon \/ exists k, l = LWCommon k) -> acc N na sc s 0 l <> ANone ->
+  forall j, j < N -> wp s j = WNotCreated \/ wp s j = WExited.
+Proof using.
+  intros sc s l [Hg Hw] Hl H j Hj. specialize (Hw j Hj). unfold wok in Hw. simpl in H.
+  destruct (cp s) as [k0| | | | |chk| | | | | | |k0| | ] eqn:Hc; try (destruct Hl as [->|[k ->]]; try destruct chk; simpl in H; congruence).
+  - (* CCreate k0 *) destruct Hl as [->|[k ->]]; destruct (Nat.eqb_spec k0 0); rewrite ?andb_false_r in H; simpl in H; try congruence;
+      subst k0; simpl in Hw; destruct Hw as (_ & _ & _ & Hx); left; exact Hx.
+  - (* CCleanup *) right. simpl in Hw. destruct Hw as (_ & _ & _ & _ & Hx). apply Hx. exact Hj.
 Qed.
 End Inv.
 
@@ -602,6 +625,22 @@ Proof.
   destruct (run 2 3 lt_ex true init ex_schedule) as [s|] eqn:Hrun; [|discriminate H1].
   exists s. split; [eapply run_reachable; [apply reach_init | exact Hrun]|].
   simpl in H1. inversion H1 as [[Hc Hr]]. repeat split; auto.
+Qed.
+
+(* D15 fix, non-vacuity of race freedom on the per-worker commons: in the state where the two workers of one block are both
+   computing (the witness state of refuted_race_common) each has an enabled step writing its OWN common, neither touches the
+   other's nor the caller's; and the coordinator's first and last internal steps do write the commons *)
+Lemma ex_commons_used :
+  exists s, reachable 2 2 lt_none true s /\
+    enabledb 2 2 lt_none true s 1 = true /\ enabledb 2 2 lt_none true s 2 = true /\
+    acc 2 2 false s 1 (LWCommon 0) = AWrite /\ acc 2 2 false s 2 (LWCommon 1) = AWrite /\
+    acc 2 2 false s 1 (LWCommon 1) = ANone /\ acc 2 2 false s 2 (LWCommon 0) = ANone /\
+    acc 2 2 false s 1 LCommon = ANone /\ acc 2 2 false s 2 LCommon = ANone /\
+    acc 2 2 false init 0 (LWCommon 0) = AWrite /\ acc 2 2 false init 0 (LWCommon 1) = AWrite /\ acc 2 2 false init 0 LCommon = ARead.
+Proof.
+  destruct (run 2 2 lt_none true init d15_witness) as [s|] eqn:Hrun; [|vm_compute in Hrun; discriminate].
+  exists s. split; [eapply run_reachable; [apply reach_init | exact Hrun]|].
+  vm_compute in Hrun. inversion Hrun. vm_compute. repeat split; reflexivity.
 Qed.
 
 Lemma ex_reading_reachable :
